@@ -133,7 +133,7 @@ func Step(name string) {
 	if Budget > 0 && Steps > Budget {
 		panic(BudgetExceeded{Steps})
 	}
-	if cur != nil {
+	if cur != nil && YieldAtStep {
 		yield()
 	}
 }
@@ -220,6 +220,7 @@ func Run(bodies ...func() interface{}) []interface{} {
 	threads = nil
 	Races, Deadlock = nil, false
 	locs = map[string]*locState{}
+	SitesSeen = map[string]bool{}
 	mainCh = make(chan struct{})
 	for i, b := range bodies {
 		t := &thread{id: i, wake: make(chan struct{}), vc: make([]int, len(bodies))}
@@ -270,14 +271,25 @@ func join(a, b []int) []int {
 	return a
 }
 
-// RWMutex replaces sync.RWMutex in the instrumented build.
+// RWMutex replaces sync.RWMutex in the instrumented build. For the
+// happens-before relation it keeps two clocks: what writers released (seen by
+// everybody who locks afterwards) and what readers released (seen by later
+// writers only - two read-side critical sections are not ordered).
 type RWMutex struct {
-	w  bool
-	r  int
-	vc []int
+	w   bool
+	r   int
+	vc  []int // released by Unlock
+	rvc []int // released by RUnlock
 }
 
 func (m *RWMutex) acquire() {
+	if cur != nil {
+		cur.vc = join(cur.vc, m.vc)
+		cur.vc = join(cur.vc, m.rvc)
+	}
+}
+
+func (m *RWMutex) racquire() {
 	if cur != nil {
 		cur.vc = join(cur.vc, m.vc)
 	}
@@ -286,6 +298,13 @@ func (m *RWMutex) acquire() {
 func (m *RWMutex) release() {
 	if cur != nil {
 		m.vc = join(append([]int{}, m.vc...), cur.vc)
+		cur.vc[cur.id]++
+	}
+}
+
+func (m *RWMutex) rrelease() {
+	if cur != nil {
+		m.rvc = join(append([]int{}, m.rvc...), cur.vc)
 		cur.vc[cur.id]++
 	}
 }
@@ -317,11 +336,11 @@ func (m *RWMutex) RLock() {
 		me.blocked = nil
 	}
 	m.r++
-	m.acquire()
+	m.racquire()
 }
 
 func (m *RWMutex) RUnlock() {
-	m.release()
+	m.rrelease()
 	m.r--
 	if cur != nil {
 		yield()
@@ -446,16 +465,34 @@ func (s *Map) Range(f func(k, v interface{}) bool) {
 	}
 }
 
-// Pool replaces sync.Pool (no reuse: every Get is New).
-type Pool struct{ New func() interface{} }
+// Pool replaces sync.Pool: LIFO reuse, so that an object handed back too early is
+// really handed out again to the next Get (possibly of another thread).
+type Pool struct {
+	New  func() interface{}
+	free []interface{}
+}
 
 func (p *Pool) Get() interface{} {
+	if cur != nil {
+		yield()
+	}
+	if n := len(p.free); n > 0 {
+		x := p.free[n-1]
+		p.free = p.free[:n-1]
+		return x
+	}
 	if p.New != nil {
 		return p.New()
 	}
 	return nil
 }
-func (p *Pool) Put(interface{}) {}
+
+func (p *Pool) Put(x interface{}) {
+	p.free = append(p.free, x)
+	if cur != nil {
+		yield()
+	}
+}
 
 // ---------------------------------------------------------------- happens-before race check
 
@@ -463,6 +500,10 @@ type locState struct {
 	lastW   []int
 	lastWid int
 	reads   map[int][]int
+	keep    interface{}
+	owner   int
+	shared  bool
+	sites   []string
 }
 
 var locs map[string]*locState
@@ -514,23 +555,61 @@ func Access(loc string, write bool) {
 
 // MapR / MapW wrap the map operand of an index, len, range (R) or of an
 // assignment / delete (W).
-func MapR[K comparable, V any](m map[K]V) map[K]V {
+func MapR[K comparable, V any](site string, m map[K]V) map[K]V {
 	if cur != nil && m != nil {
-		Access(fmt.Sprintf("map@%p", m), false)
+		mapAccess(site, fmt.Sprintf("map@%p", m), m, false)
 	}
 	return m
 }
 
-func MapW[K comparable, V any](m map[K]V) map[K]V {
+func MapW[K comparable, V any](site string, m map[K]V) map[K]V {
 	if cur != nil && m != nil {
-		Access(fmt.Sprintf("map@%p", m), true)
+		mapAccess(site, fmt.Sprintf("map@%p", m), m, true)
 	}
 	return m
+}
+
+// Scheduling policy.
+//
+// YieldAtStep: function entries are scheduling points.
+// YieldAtAccess: 0 = hooked map accesses never yield, 1 = all of them do, 2 = only those at sites in
+// SharedSites (sites at which some map was touched by two threads in a profiling execution).
+// Accesses to package-level variables and all operations of the sync shim always yield.
+var (
+	YieldAtStep   = false
+	YieldAtAccess = 2
+	SharedSites   = map[string]bool{}
+	// SitesSeen: site -> "shared" when, in the current execution, a map accessed at that site has
+	// been accessed by more than one thread.
+	SitesSeen = map[string]bool{}
+)
+
+func mapAccess(site, key string, keep interface{}, write bool) {
+	if YieldAtAccess == 1 || (YieldAtAccess == 2 && SharedSites[site]) {
+		yield()
+	}
+	Access(key, write)
+	if s := locs[key]; s != nil {
+		s.keep = keep // the map stays alive until the execution ends: its address cannot be reused
+		if s.owner == 0 {
+			s.owner = cur.id + 1
+		} else if s.owner != cur.id+1 {
+			s.shared = true
+		}
+		s.sites = append(s.sites, site)
+		if s.shared {
+			for _, st := range s.sites {
+				SitesSeen[st] = true
+			}
+			s.sites = s.sites[:0]
+		}
+	}
 }
 
 // Rd / Wr wrap reads and writes of package-level variables.
 func Rd[T any](name string, p *T) *T {
 	if cur != nil {
+		yield()
 		Access("var "+name, false)
 	}
 	return p
@@ -538,6 +617,7 @@ func Rd[T any](name string, p *T) *T {
 
 func Wr[T any](name string, p *T) *T {
 	if cur != nil {
+		yield()
 		Access("var "+name, true)
 	}
 	return p
